@@ -157,6 +157,7 @@ func genC10(cs *CaseSet, rng *Rng, tier string, dir string) {
 			x := c10Open(env, ref)
 			x.write([]byte{0, 3})
 			var acts []byte
+			nFilesSeen := 0
 			o := [][]byte{count}
 			n := int(binary.BigEndian.Uint16(count))
 			for i := 0; i < n; i++ {
@@ -190,7 +191,12 @@ func genC10(cs *CaseSet, rng *Rng, tier string, dir string) {
 				// the client's choice
 				kind, off := 1, 0
 				if !isDir {
-					switch rng.Intn(5) {
+					choice := rng.Intn(5)
+					if nFilesSeen < 2 { // the first file is resumed, the second skipped; the rest at random
+						choice = 1 - nFilesSeen
+					}
+					nFilesSeen++
+					switch choice {
 					case 0:
 						kind = 3
 						sawSkip = true
@@ -294,11 +300,19 @@ func genC10(cs *CaseSet, rng *Rng, tier string, dir string) {
 		ut := hotline.NewTransaction(hotline.TranUploadFldr, cc.ID, hotline.NewField(hotline.FieldFileName, upName),
 			hotline.NewField(hotline.FieldTransferSize, be32(total)), hotline.NewField(hotline.FieldFolderItemCount, be16(len(items))))
 		ures, _ := callHandler(mobius.HandleUploadFolder, cc, &ut)
+		cutIdx, cutAt := -1, 0
+		if h%3 == 2 { // the connection dies inside the data of one file (the resumed one when there is one)
+			cutIdx = 5
+			if !pre || rng.Intn(3) == 0 {
+				cutIdx = 3
+			}
+		}
 		if len(ures) == 1 && !isErrReply(ures) {
 			x := c10Open(env, ures[0].GetField(hotline.FieldRefNum).Data)
 			var replies []byte
 			var args [][]byte
 			args = append(args, c11EncPath([][]byte{upName}))
+			died := false
 			if _, err := x.read(2); err == nil {
 				for _, it := range items {
 					d := byte(0)
@@ -307,7 +321,10 @@ func genC10(cs *CaseSet, rng *Rng, tier string, dir string) {
 					}
 					args = append(args, c11EncPath(it.path), []byte{d}, it.data)
 				}
-				for _, it := range items {
+				for idx, it := range items {
+					if died {
+						break
+					}
 					pathBytes := encodePath(it.path)[2:]
 					hd := be16(len(pathBytes) + 4)
 					if it.isDir {
@@ -343,11 +360,25 @@ func genC10(cs *CaseSet, rng *Rng, tier string, dir string) {
 							off = len(it.data)
 						}
 						ffo := c10FFO(name, it.data[off:])
+						if idx == cutIdx && len(it.data[off:]) > 1 {
+							cutAt = 1 + rng.Intn(len(it.data[off:])-1)
+							x.write(append(be32(len(ffo)), ffo[:len(ffo)-len(it.data[off:])+cutAt]...))
+							x.c.Close()
+							died = true
+							break
+						}
 						x.write(append(be32(len(ffo)), ffo...))
 						x.read(2)
 					default:
 						replies = append(replies, 1, 0, 0, 0, 0)
 						ffo := c10FFO(name, it.data)
+						if idx == cutIdx && len(it.data) > 1 {
+							cutAt = 1 + rng.Intn(len(it.data)-1)
+							x.write(append(be32(len(ffo)), ffo[:len(ffo)-len(it.data)+cutAt]...))
+							x.c.Close()
+							died = true
+							break
+						}
 						x.write(append(be32(len(ffo)), ffo...))
 						x.read(2)
 					}
@@ -355,12 +386,116 @@ func genC10(cs *CaseSet, rng *Rng, tier string, dir string) {
 			}
 			x.c.Close()
 			time.Sleep(2 * time.Millisecond)
-			ops = append(ops, mkOp(2, "folder-upload", args...))
-			obs = append(obs, [][]byte{replies, c11EncSnapshot(c11Snapshot(root))})
+			if died {
+				time.Sleep(60 * time.Millisecond) // let the handler see the end of the stream
+				cargs := append([][]byte{args[0], be16(cutIdx), be32(cutAt)}, args[1:]...)
+				ops = append(ops, mkOp(3, "folder-upload-cut", cargs...))
+				obs = append(obs, [][]byte{c11EncSnapshot(c11Snapshot(root))})
+			} else {
+				ops = append(ops, mkOp(2, "folder-upload", args...))
+				obs = append(obs, [][]byte{replies, c11EncSnapshot(c11Snapshot(root))})
+				// round trip: download what was just uploaded, taking every file whole
+				dt := hotline.NewTransaction(hotline.TranDownloadFldr, cc.ID, hotline.NewField(hotline.FieldFileName, upName))
+				if dres, _ := callHandler(mobius.HandleDownloadFolder, cc, &dt); len(dres) == 1 && !isErrReply(dres) {
+					o, acts := c10Download(env, dres[0], nil)
+					ops = append(ops, mkOp(1, "folder-download-roundtrip", c11EncPath([][]byte{upName}), acts))
+					obs = append(obs, o)
+				}
+			}
 		}
 		env.StopDrain()
 		cs.Add(Case{Kind: "folder-transfers", Ops: ops, Obs: obs, NonTrivial: deep && hasEmpty && hasDotFile && hasDotDir && sawResume && sawSkip && pre})
 	}
+}
+
+// c10Download runs the reference folder-download client; choose gives the action for the i-th header (nil: send all)
+func c10Download(env *Env, reply hotline.Transaction, choose func(i int, isDir bool, comps [][]byte) (int, int)) ([][]byte, []byte) {
+	count := reply.GetField(hotline.FieldFolderItemCount).Data
+	x := c10Open(env, reply.GetField(hotline.FieldRefNum).Data)
+	x.write([]byte{0, 3})
+	var acts []byte
+	o := [][]byte{count}
+	n := int(binary.BigEndian.Uint16(count))
+	for i := 0; i < n; i++ {
+		hd, err := x.read(2)
+		if err != nil {
+			o = append(o, []byte("<no header>"))
+			break
+		}
+		body, err := x.read(int(binary.BigEndian.Uint16(hd)))
+		if err != nil || len(body) < 4 {
+			o = append(o, []byte("<short header>"))
+			break
+		}
+		isDir := body[1] == 1
+		var comps [][]byte
+		pc := int(binary.BigEndian.Uint16(body[2:4]))
+		pb := body[4:]
+		for j := 0; j < pc && len(pb) >= 3; j++ {
+			l := int(pb[2])
+			if len(pb) < 3+l {
+				break
+			}
+			comps = append(comps, pb[3:3+l])
+			pb = pb[3+l:]
+		}
+		item := append(c11EncPath(comps), 0)
+		if isDir {
+			item[len(item)-1] = 1
+		}
+		kind, off := 1, 0
+		if choose != nil {
+			kind, off = choose(i, isDir, comps)
+		}
+		acts = append(acts, byte(kind))
+		acts = append(acts, be32(off)...)
+		if kind == 2 {
+			rd := c10ResumeData(off)
+			x.write(append(append([]byte{0, 2}, be16(len(rd))...), rd...))
+		} else {
+			x.write([]byte{0, byte(kind)})
+		}
+		if isDir || kind == 3 {
+			item = append(item, 0, 0, 0, 0, 0)
+			item = append(item, be32(0)...)
+			o = append(o, item)
+			continue
+		}
+		szb, err := x.read(4)
+		if err != nil {
+			o = append(o, append(item, []byte("<no size>")...))
+			break
+		}
+		sz := int(binary.BigEndian.Uint32(szb))
+		item = append(append(item, 1), szb...)
+		if sz > 1<<22 {
+			o = append(o, append(item, []byte("<absurd size>")...))
+			break
+		}
+		payload, err := x.read(sz)
+		if err != nil {
+			o = append(o, append(item, []byte("<short payload>")...))
+			break
+		}
+		var data []byte
+		if len(payload) >= 40 {
+			il := int(binary.BigEndian.Uint32(payload[36:40]))
+			if len(payload) >= 40+il+16 {
+				data = payload[40+il+16:]
+			}
+		}
+		item = append(item, be32(len(data))...)
+		item = append(item, data...)
+		o = append(o, item)
+		x.write([]byte{0, 3})
+	}
+	x.c.SetReadDeadline(time.Now().Add(30 * time.Millisecond))
+	extra := make([]byte, 1)
+	if k, _ := x.c.Read(extra); k > 0 {
+		o = append(o, []byte("<more data after the announced items>"))
+	}
+	x.c.Close()
+	return o, acts
 }
 
 func bytesToStrings(b [][]byte) []string {
